@@ -19,6 +19,8 @@ LEVEL_NOTE = 'Trusted: front-end, interpreter, real algebra (rounding of sums no
 EXPLANATION = 'R16.1 loop progress; R16.2 inputs not mutated; R16.3 geometry/mass identities (also when the slice arrays were pre-filled by the layers, build_slices=False); R16.4 radius scaling and distinct names along derivation chains; R16.5 mass bookkeeping survives a derivation (parent reinit -> scale/build_from_world -> derived reinit); R16.7 LayeredWorld builds its layers in configuration order for every way of placing them (radius, thickness, mixed); R16.6 the shipped non-BurnMan layered configurations (directory and zip copies) state positive, strictly increasing radii that end at the world radius.'
 
 
+TECHNIQUE += '; build_from_world from parents whose layers are placed by thickness / by the world radius, the derived configuration run through find_geometry_from_config layer by layer'
+
 def run(chk):
     repo = Repo(chk.repo)
     # ------------------------------------------------------------------ R16.1
